@@ -1,5 +1,6 @@
 """C01 — parallel map is order-preserving and exactly-once.  DESIGN §5 C01."""
 import core
+import ppar
 import scen_fifo
 
 PROPS = ['Props/C01.lean']
@@ -15,6 +16,7 @@ def run(chk):
     core.e1_flow(chk, 'scen_fifo', 'fifo', {'C01'},
                  lambda rng: scen_fifo.gen_case(rng, chk.tier, rng.choice(['order', 'order', '', 'stop'])),
                  n, keyfn=keyfn)
+    ppar.sample(chk, 'C01', 10 if chk.tier == 'quick' else 200)
     chk.cov['rule'] = ('cases = random (kind, n, cap, conc, flags, failure plan, stop position, service durations, '
                        'chooser, seed) run on the real fifo_stream/Stream.parmap under the deterministic scheduler; '
                        'non-trivial = n >= 2 elements and >= 1 context switch; distinct = distinct (case, event trace)')
@@ -27,7 +29,7 @@ TRUSTED = [
     'hand-written model lean/MpsVerif/Model/Fifo.lean, tied to /repo by trace validation (drv fifo, Core.Val.validate_sound) on every run',
     'deterministic scheduler harness/detsched.py (replaces threading primitives, SimpleQueue, clock)',
     'modelled not verified: SingleLane is FIFO with maxsize slots; ThreadPoolExecutor runs <= max_workers calls and cancel() succeeds only before pick-up; Future.result() returns the call\'s own outcome',
-    "executor='process' is not driven by the scheduler (OS schedule); covered by the theorem only, plus the repo's own tests",
+    "executor='process': not driven by the scheduler; sampled on real pool processes under the OS schedule (harness/ppar.py, monitors only), otherwise covered by the theorem (the Fifo model does not depend on the kind of executor)",
 ]
 ASSUMPTIONS = [
     'the correspondence was checked on the schedules explored in this run only; the theorems quantify over all schedules of the model',
@@ -36,6 +38,14 @@ ASSUMPTIONS = [
 
 def replay(chk, data):
     import json
+    if data['case'].get('kind') == 'ppar':
+        mons = ppar.replay_case(chk, data['case'])
+        hits = [m for m in mons if m['prop'] == chk.prop]
+        print(json.dumps(mons)[:2000])
+        if hits:
+            print(f'VIOLATION property={chk.prop} replay=(replayed)')
+            return 1
+        return 0
     res = chk.run_cases('scen_fifo', [data['case']])
     case, r = res[0]
     hits = [m for m in r['monitors'] if m['prop'] == chk.prop]
